@@ -316,7 +316,14 @@ Record Inv (s : st) : Prop := {
   I_eos : forall t e, phase_of s t = RecvWait e -> fut s e = FSet -> slot s e = None -> finished s;
   I_brk : forall e x, In (e, x) (senders s) -> fut s e = FSet -> open_recv s = 0;
   I_wr : open_send s = 0 -> forall t e, phase_of s t = RecvWait e -> fut s e <> FPending;
-  I_ws : open_recv s = 0 -> forall t e x, phase_of s t = SendWait e x -> fut s e <> FPending
+  I_ws : open_recv s = 0 -> forall t e x, phase_of s t = SendWait e x -> fut s e <> FPending;
+  (* arrival logs: every event is logged once *)
+  I_senqlt : forall e, In e (senq s) -> e < nev s;
+  I_senqnd : NoDup (senq s);
+  I_renqlt : forall e, In e (renq s) -> e < nev s;
+  I_renqnd : NoDup (renq s);
+  (* the event of a queued receiver has not been set (setting and popping go together) *)
+  I_rfut : forall e t, In (e, t) (receivers s) -> fut s e <> FSet
 }.
 
 Lemma inv_init m : Inv (init m).
@@ -339,7 +346,9 @@ Ltac get_inv I s :=
   pose proof (I_ack s I) as Hack; pose proof (I_infl s I) as Hinfl; pose proof (I_inflnd s I) as Hinflnd;
   pose proof (I_filled s I) as Hfilled; pose proof (I_senq s I) as Hsenq; pose proof (I_renq s I) as Hrenq;
   pose proof (I_eos s I) as Heos; pose proof (I_brk s I) as Hbrk; pose proof (I_wr s I) as Hwr;
-  pose proof (I_ws s I) as Hws.
+  pose proof (I_ws s I) as Hws; pose proof (I_senqlt s I) as Hsenqlt; pose proof (I_senqnd s I) as Hsenqnd;
+  pose proof (I_renqlt s I) as Hrenqlt; pose proof (I_renqnd s I) as Hrenqnd;
+  pose proof (I_rfut s I) as Hrfut.
 
 (* case analysis on every `upd f k v x` in hypotheses and goal *)
 Ltac upd_cases k :=
@@ -477,6 +486,7 @@ Proof.
   - intros e t H. eapply Hrslot, Hin, H.
   - intros H. apply Hj1. rewrite Hr. intros E. apply app_eq_nil in E. tauto.
   - eapply subseq_trans; [apply subseq_map, Hss|exact Hrenq].
+  - intros e t H. eapply Hrfut, Hin, H.
 Qed.
 
 Lemma serve_head_inv s e t rest x :
@@ -529,6 +539,7 @@ Proof.
   - rewrite map_app. cbn. apply NoDup_app_tail1; assumption.
   - eapply subseq_trans; [|exact Hrenq]. rewrite Hr. cbn. apply ss_skip, subseq_refl.
   - intros e0 x0 H. rewrite Hs in H. destruct H.
+  - intros e0 t0 H. rewrite upd_other by (eapply Hne, H). eapply Hrfut, Hin, H.
 Qed.
 
 Lemma xlt_xle n m : xlt n m = true -> xle (S n) m.
@@ -621,6 +632,9 @@ Proof.
   - intros e x0 H H2. apply in_app_or in H. destruct H as [H|[H|[]]].
     + rewrite upd_other in H2 by (apply Hk in H; lia). eauto.
     + injection H as <- <-. rewrite upd_same in H2. discriminate.
+  - intros e H. apply in_app_or in H. destruct H as [H|[<-|[]]]; [apply Hsenqlt in H; lia|lia].
+  - apply NoDup_app_tail1; [assumption|]. intros H. apply Hsenqlt in H. lia.
+  - intros e H. apply Hrenqlt in H. lia.
 Qed.
 
 Lemma pop_only_inv s x b :
@@ -685,6 +699,7 @@ Proof.
       assert (t = t') by (eapply Hinj; [rewrite H1|rewrite Ht']; reflexivity). subst. congruence.
     + destruct (Heos _ _ H1 H2 H3) as (_ & _ & H). congruence.
   - intros e0 x0 H H2. rewrite upd_other in H2 by (eapply Hne, H). eauto.
+  - intros e0 t0 H. rewrite Hr in H. destruct H.
 Qed.
 
 Lemma enq_receiver_inv s t :
@@ -726,6 +741,12 @@ Proof.
   - intros t0 e H1 H2 H3. upd_cases t.
     + injection H1 as <-. rewrite upd_same in H2. discriminate.
     + upd_cases (nev s); try discriminate. eapply Heos; eassumption.
+  - intros e H. apply Hsenqlt in H. lia.
+  - intros e H. apply in_app_or in H. destruct H as [H|[<-|[]]]; [apply Hrenqlt in H; lia|lia].
+  - apply NoDup_app_tail1; [assumption|]. intros H. apply Hrenqlt in H. lia.
+  - intros e t0 H. apply in_app_or in H. destruct H as [H|[H|[]]].
+    + rewrite upd_other by (apply Hk in H; lia). eauto.
+    + injection H as <- <-. rewrite upd_same. discriminate.
 Qed.
 Lemma finish_sw_absent_inv s t e x :
   Inv s -> phase_of s t = SendWait e x -> fut s e <> FPending -> has_key e (senders s) = false ->
@@ -792,6 +813,7 @@ Proof.
   - intros e0 t0 H. eapply Hrslot. eapply del_key_in, H.
   - intros H. apply Hj1. intros E. rewrite E in H. cbn in H. congruence.
   - eapply subseq_trans; [apply subseq_map, Hsub'|exact Hrenq].
+  - intros e0 t0 H. eapply Hrfut. eapply del_key_in, H.
 Qed.
 
 Lemma finish_rw_inv s t e l' r' lo' :
@@ -933,6 +955,10 @@ Proof.
   - intros Ho t e H1 H2. apply set_keys_not_pending_inv in H2. destruct H2 as [H2 _]. eapply Hwr; eauto.
   - intros _ t e x H1 H2. apply set_keys_not_pending_inv in H2. destruct H2 as [H2 H3].
     apply H3. eapply in_keys. eapply Hspend; eauto.
+  - intros e t H1 H2. apply set_keys_set_inv in H2. destruct H2 as [H2|H2]; [eapply Hrfut; eauto|].
+    apply in_map_iff in H2. destruct H2 as ([e0 x0] & E & H2). cbn in E. subst e0.
+    destruct (Hsk _ _ H2) as [t' Ht']. pose proof (Hrk _ _ H1) as Ht.
+    assert (t' = t) by (eapply Hinj; [rewrite Ht'|rewrite Ht]; reflexivity). subst. congruence.
 Qed.
 
 Lemma close_send_notlast_inv s h :
